@@ -84,7 +84,12 @@ class World(object):
         if not cand:
             return []
         n = self.rnd.choice(cand)
-        self.brokers[n] = self.fresh_addr()
+        if self.rnd.random() < 0.45:
+            # same host, another port (a re-addressing that differs in ONE component of the address)
+            h, p = self.brokers[n]
+            self.brokers[n] = (h, self.rnd.choice([q for q in (9092, 9093, 1234, 19092) if q != p]))
+        else:
+            self.brokers[n] = self.fresh_addr()
         return [n]
 
     def add_broker(self):
